@@ -9,7 +9,7 @@ import subprocess
 import sys
 
 HERE = os.path.dirname(os.path.dirname(os.path.abspath(__file__)))
-EXTRA = {"C11_r3m3": ["C11", "C05"], "C11_r3m2": ["C11", "C12"], "C03_r3m1": ["C03", "C06"], 'C07_m3': ['C11', 'C07'], 'C08_m1': ['C08', 'C10'], 'C07_m1': ['C07', 'C16'], 'C09_m1': ['C09', 'C10'],
+EXTRA = {"C12_r3m1": ["C12", "C10"], "C11_r3m3": ["C11", "C05"], "C11_r3m2": ["C11", "C12"], "C03_r3m1": ["C03", "C06"], 'C07_m3': ['C11', 'C07'], 'C08_m1': ['C08', 'C10'], 'C07_m1': ['C07', 'C16'], 'C09_m1': ['C09', 'C10'],
          'C14_m2': ['C14', 'C04'], 'C16_m1': ['C16'], 'C01_m3': ['C01', 'C05'], 'C10_m1': ['C10', 'C08'],
          'C10_m3': ['C10', 'C09'], 'C03_m1': ['C03', 'C10']}
 
